@@ -34,9 +34,9 @@ def expandDims : String := "prepend-axes-while-ndim<n"
 def applyGuard : List String := ["NotEq", "rotation", "IndexError"]
 def applyCopiesInput : Bool := true
 def applyReshapesBack : Bool := true
-def applyInput : List String := ["coord(atoms)", "_reshape_to_3d(mobile_coord)"]
-/-- `_reshape_to_3d`: the tests on `coord.ndim` in order. -/
-def reshapeLadder : List String := ["Lt 2 raise:ValueError", "Eq 2 returncoord[np.newaxis,...]", "Eq 3 returncoord", "else raise:ValueError"]
+def applyInput : List String := ["coord(atoms)", "RESHAPE3D(mobile_coord)"]
+/-- `_reshape_to_3d`: what happens for ndim = 0..5 (semantic table, independent of the order of the tests). -/
+def reshapeLadder : List String := ["0:raise:ValueError", "1:raise:ValueError", "2:newaxis", "3:identity", "4:raise:ValueError", "5:raise:ValueError"]
 /-- `as_matrix`: identity size, source of the model count; `_3d_identity`: dtype of the zeros, diagonal value 1. -/
 def matrixSize : Nat := 4
 def matrixCount : String := "self.rotation.shape[0]"
@@ -85,7 +85,7 @@ def scoreFilter : List String := ["Gt", "0"]
 def alignKeywords : List String := ["max_number=1", "terminal_penalty=terminal_penalty"]
 def alignArgs : List String := ["0", "1", "substitution_matrix", "gap_penalty"]
 /-- `rmsd`, `_sq_euclidian` (compare.py) and `centroid` (geometry.py). -/
-def rmsdExpr : String := "np.sqrt(np.mean(_sq_euclidian(reference,subject),axis=-1))"
+def rmsdExpr : String := "np.sqrt(np.mean(SQ_EUCLID(reference,subject),axis=-1))"
 def sqEuclidGuard : List String := ["coord(reference).ndim!=2", "TypeError"]
 def sqEuclidDiff : String := "coord(subject)-coord(reference)"
 def centroidExpr : String := "np.mean(coord(atoms),axis=-2)"
